@@ -222,7 +222,7 @@ def check(ctx):
                 'search: all real decoders that round-trip the key: every field (checksum/complement/constant fields included) x bit positions flipped through the REAL _build_packet, '
                 'dropped/duplicated symbol, lead-in x0.5/x2, each on a fresh decoder and on one that has just decoded the intact frame; oracle: DecodeError-family / no code, or the reported '
                 'parameters re-encode (any toggle) to exactly the corrupted frame. distinct = (protocol, corruption, history, key)')
-    tabs, ok = engine_prove.prove(ctx, MODULES, with_wrappers=True)
+    tabs, ok = engine_prove.prove(ctx, MODULES, with_wrappers=True, wrap_kinds=('c05',))
     import fingerprint
     changed_p, changed_e = fingerprint.changed()
     focus = engine_prove.failed_protocols(ctx) | changed_p
